@@ -329,6 +329,32 @@ func c04Case(r *evid.Run, tier string, idx int, g *rng.R) {
 			}()
 		}
 	}
+	// nodes of a second document compared with and converted next to nodes of the first in one query
+	if idx%3 == 2 && !w.ref && !deep && idx%4 != 1 {
+		w.env.Vars, w.env.Funcs = nil, nil
+		foreignSection(r, "two-documents", idx, g, w, o, func(g *rng.R, w *world) xast.Expr {
+			t := fsName(g, w)
+			switch g.Intn(3) {
+			case 0:
+				return xast.Fn("string", xast.Abs(xast.DS(), xast.S("child", t)))
+			case 1:
+				return xast.Binary{Op: "+", L: xast.Fn("number", xast.Abs(xast.DS(), xast.S("child", t))), R: xast.N(1)}
+			}
+			return xast.Fn("boolean", xast.Abs(xast.DS(), xast.S("child", t)))
+		}, func(g *rng.R, wB *world, ov xast.Expr) xast.Expr {
+			switch g.Intn(5) {
+			case 0:
+				return xast.Fn("string", ov)
+			case 1:
+				return xast.Binary{Op: "+", L: xast.Fn("number", ov), R: xast.N(1)}
+			case 2:
+				return xast.Fn("string-length", ov)
+			case 3:
+				return xast.Fn("boolean", ov)
+			}
+			return xast.Fn("string", xast.Path{Head: ov, Steps: []xast.Step{xast.DS(), xast.S("child", fsName(g, wB))}})
+		})
+	}
 	r.Sample("doc", 2, map[string]any{"case": idx, "document": d.Dump(), "values": len(vals)})
 }
 
